@@ -2,6 +2,7 @@ package main
 
 import (
 	"fmt"
+	"os"
 	"go/constant"
 	"go/token"
 	"go/types"
@@ -582,6 +583,16 @@ func derivesFrom(v ssa.Value, isSource func(ssa.Value) bool, through func(id str
 			return rec(x.X)
 		case *ssa.Slice:
 			return rec(x.X)
+		case *ssa.Alloc:
+			if vals, ok := storedValues(x); ok {
+				for _, sv := range vals {
+					if rec(sv) {
+						return true
+					}
+				}
+			}
+
+			return false
 		case *ssa.Field:
 			return rec(x.X)
 		case *ssa.FieldAddr:
@@ -822,3 +833,51 @@ func cellValueAt(load *ssa.UnOp) ssa.Value {
 
 	return nil
 }
+
+// dumpFn writes the SSA of fn to stderr when EGOCHECK_DUMP names it.
+func dumpFn(fn *ssa.Function) {
+	if fn != nil && os.Getenv("EGOCHECK_DUMP") == fnKey(fn) {
+		fn.WriteTo(os.Stderr)
+	}
+}
+
+// retResult returns result i of a Return, looking through the spill that
+// go/ssa inserts in functions with defers (*t0 = v; rundefers; t = *t0;
+// return t).
+func retResult(ret *ssa.Return, i int) ssa.Value {
+	v := ret.Results[i]
+
+	u, ok := v.(*ssa.UnOp)
+	if !ok || u.Op != token.MUL {
+		return v
+	}
+
+	if _, isAlloc := u.X.(*ssa.Alloc); !isAlloc {
+		return v
+	}
+
+	b := ret.Block()
+	for j := len(b.Instrs) - 1; j >= 0; j-- {
+		if st, ok := b.Instrs[j].(*ssa.Store); ok && st.Addr == u.X {
+			return st.Val
+		}
+	}
+
+	if cv := cellValueAt(u); cv != nil {
+		return cv
+	}
+
+	return v
+}
+
+// retResults returns all results of a Return through retResult.
+func retResults(ret *ssa.Return) []ssa.Value {
+	out := make([]ssa.Value, len(ret.Results))
+	for i := range ret.Results {
+		out[i] = retResult(ret, i)
+	}
+
+	return out
+}
+
+func sprintInt(n int) string { return fmt.Sprintf("%d", n) }
